@@ -220,6 +220,19 @@ add("C24", "fixed", "conc:not-linearizable",
     "on a 3-thread x 5-operation history under yield injection (schedules are not replayable, so no pinned witness).",
     [], "b8e040b")
 
+# ----------------------------------------------------------------------------- C19 fixed
+def c19(main, partials, data):
+    return {"kind": "pinned", "main": main, "partials": partials, "datas": [V.enc(data)], "async": False, "async_analysis": False}
+
+
+add("C19", "fixed", "global-not-reported:in-partial",
+    "static analysis analysed a partial only on its first use: a name that was block scoped there (enclosing for/tablerow variable, keyword argument, bound alias) but read from the render "
+    "arguments at a later include / render of the same partial was missing from analysis.globals ('{% for b in xs %}{% include 'p' %}{% endfor %}{% include 'p' %}' with p = '{{ b.x }}' "
+    "did not report b); render's partial key also ignored its bound variable",
+    [c19("{% for b in xs %}{% include 'p' %}{% endfor %}{% include 'p' %}", {"p": "{{ b.x }}"}, {"xs": [1], "b": {"x": "GB"}}),
+     c19("{% render 'p' with g as b %}{% render 'p' %}", {"p": "{{ b.x }}"}, {"g": {"x": 1}, "b": {"x": "GB"}}),
+     c19("{% tablerow b in xs %}{% include 'p' for xs %}{% endtablerow %}{% include 'p' with g2 %}", {"p": "{{ b.x[b] }}"}, {"xs": [1], "b": {"x": {}}, "g2": 1})], "5394e41")
+
 if __name__ == "__main__":
     # further entries are appended by tools/mkfindings.py from triaged replay files and kept in findings_extra.json
     extra_path = os.path.join(VERIF, "tools", "findings_extra.json")
